@@ -1,7 +1,7 @@
 (* QueryParse.v — filters over a query in disjunctive form, [?( b && b ... || b && b ... )], through the regenerated
    grammar: query is andQuery (|| andQuery)*, andQuery is basicQuery (&& basicQuery)*; a basic query here is an
    existence test @steps, its negation !@steps, or a comparison @steps OP number.  No blanks inside. *)
-From JP Require Import Peg Grammar Text Tree Actions PegFacts PegMono PegEv FuelRules ParseFacts KeyDefs KeyParse IdxParse SliceParse UnionParse WildParse RecParse ChainParse SpacePath FunParse AggParse Frame FiltParse CmpParse NegFilt LitParse RootOp NoDollar.
+From JP Require Import Peg Grammar Text Tree Actions PegFacts PegMono PegEv FuelRules ParseFacts KeyDefs KeyParse IdxParse SliceParse UnionParse WildParse RecParse ChainParse SpacePath FunParse AggParse Frame FiltParse CmpParse NegFilt LitParse RootOp RegexOp NoDollar.
 From Coq Require Import Lia.
 Local Open Scope N_scope.
 Open Scope list_scope.
@@ -15,6 +15,7 @@ Definition bq_ok (b : bq) : bool :=
   | BCR i o j => forallb rstep_ok i && negb (steps_vg i) && (forallb rstep_ok j && negb (steps_vg j)) &&
                  match o with OLt | OLe | OGt | OGe => true | _ => false end
   | BPQ i ne j => forallb rstep_ok i && negb (steps_vg i) && (forallb rstep_ok j && negb (steps_vg j))
+  | BX i body => forallb rstep_ok i && negb (steps_vg i) && re_plain body
   end.
 Definition eq_text (ne : bool) : list N := if ne then [33; 61] else [61; 61].
 Definition bq_tokens (pos : nat) (b : bq) : list token :=
@@ -31,6 +32,7 @@ Definition bq_tokens (pos : nat) (b : bq) : list token :=
                  [TText pos (pos + (1 + List.length (render_steps i) + List.length (op_text o) + (1 + List.length (render_steps j)))); TAct 26]
   | BPQ i ne j => left43_tokens pos i ++ right43_tokens (pos + 1 + List.length (render_steps i) + 2) j ++ [TAct (if ne then 29%nat else 28%nat)] ++
                   [TText pos (pos + (1 + List.length (render_steps i) + 2 + (1 + List.length (render_steps j)))); TAct 26]
+  | BX i body => rx39_tokens pos i body ++ [TText pos (pos + (1 + List.length (render_steps i) + 3 + List.length body + 1)); TAct 26]
   end.
 
 Lemma bq_text_len b : List.length (bq_text b) =
@@ -43,15 +45,16 @@ Lemma bq_text_len b : List.length (bq_text b) =
   | BRN j => (2 + List.length (render_steps j))%nat
   | BCR i o j => (1 + List.length (render_steps i) + List.length (op_text o) + (1 + List.length (render_steps j)))%nat
   | BPQ i ne j => (1 + List.length (render_steps i) + 2 + (1 + List.length (render_steps j)))%nat
+  | BX i body => (1 + List.length (render_steps i) + 3 + List.length body + 1)%nat
   end.
-Proof. destruct b as [i|i|i o lit|i ne l|j|j|i o j|i ne j]; cbn [bq_text List.length]; rewrite ?app_length; cbn [List.length]; try lia; destruct ne; cbn [List.length]; lia. Qed.
+Proof. destruct b as [i|i|i o lit|i ne l|j|j|i o j|i ne j|i body]; cbn [bq_text List.length]; rewrite ?app_length; cbn [List.length]; rewrite ?app_length; cbn [List.length]; try lia; destruct ne; cbn [List.length]; lia. Qed.
 Lemma bq_head b : exists x r, bq_text b = x :: r /\ x <> 32.
-Proof. destruct b as [i|i|i o lit|i ne l|j|j|i o j|i ne j]; cbn [bq_text]; eexists _, _; (split; [reflexivity|discriminate]). Qed.
+Proof. destruct b as [i|i|i o lit|i ne l|j|j|i o j|i ne j|i body]; cbn [bq_text]; eexists _, _; (split; [reflexivity|discriminate]). Qed.
 
 Lemma ev35_bq b c t pos : bq_ok b = true -> qend c ->
   evG (PRef 35) (bq_text b ++ c :: t) pos (POk (c :: t) (pos + List.length (bq_text b)) (bq_tokens pos b)).
 Proof.
-  intros Hb Hq. rewrite bq_text_len. destruct b as [i|i|i o lit|i ne l|j|j|i o j|i ne j]; cbn [bq_ok bq_text bq_tokens app] in *.
+  intros Hb Hq. rewrite bq_text_len. destruct b as [i|i|i o lit|i ne l|j|j|i o j|i ne j|i body]; cbn [bq_ok bq_text bq_tokens app] in *.
   - eapply ev_conv.
     + eapply ev_ref; [reflexivity|].
       apply ev_alt_r; [apply ev_seq_fail; eapply ev_ref; [reflexivity|]; apply ev_seq_fail; apply (ev_lit_fail G [40]); reflexivity|].
@@ -263,6 +266,18 @@ Proof.
     + replace (64 :: (render_steps i ++ [61; 61] ++ 36 :: render_steps j) ++ c :: t) with (64 :: render_steps i ++ 61 :: 61 :: 36 :: render_steps j ++ c :: t)
         by (cbn [app]; rewrite <- !app_assoc; reflexivity).
       apply (Hgen 61 28%nat). right. split; reflexivity.
+  - (* @ steps =~ /body/ *)
+    apply andb_true_iff in Hb. destruct Hb as [Hb Hre]. apply andb_true_iff in Hb. destruct Hb as [Hs _].
+    replace (64 :: (render_steps i ++ 61 :: 126 :: 47 :: body ++ [47]) ++ c :: t) with (64 :: render_steps i ++ 61 :: 126 :: 47 :: body ++ 47 :: c :: t)
+      by (repeat (progress (cbn [app]) || rewrite <- app_assoc); reflexivity).
+    eapply ev_conv.
+    + eapply ev_ref; [reflexivity|].
+      apply ev_alt_r; [apply ev_seq_fail; eapply ev_ref; [reflexivity|]; apply ev_seq_fail; apply (ev_lit_fail G [40]); reflexivity|].
+      apply ev_alt_l. eapply ev_seq_ok; [apply ev_cap; apply (ev_rule39_rx i body c t pos Hs Hre)|apply ev_act|reflexivity].
+    + f_equal; try lia.
+      replace (pos + 1 + List.length (render_steps i) + 3 + List.length body + 1)%nat
+        with (pos + (1 + List.length (render_steps i) + 3 + List.length body + 1))%nat by lia.
+      rewrite <- !app_assoc. reflexivity.
 Qed.
 
 (* ---------- conjunctions ---------- *)
@@ -453,7 +468,7 @@ Section QueryExec.
 
   Definition qnum (lit : list N) : num := match parse_float (text_of lit) with Some f => f | None => Fin 0 0 end.
   Definition bq_okp (b : bq) : bool :=
-    match b with BC _ _ lit => match parse_float (text_of lit) with Some _ => true | None => false end | _ => true end.
+    match b with BC _ _ lit => match parse_float (text_of lit) with Some _ => true | None => false end | BX _ body => regex_ok (text_of body) | _ => true end.
   Definition litv_vd (l : litv) : validator := match l with LStr _ _ => VdString | LBool _ _ => VdBool | LNull _ => VdNil end.
   Definition lit_cmp (i : list rstep) (l : litv) : query := QCmp (cmp_left cfg i) (CP (PqLit (litv_value l)) true) (CDirectEq (litv_vd l)).
   Definition bq_query (b : bq) : query :=
@@ -466,6 +481,7 @@ Section QueryExec.
     | BRN j => QNot (QParam (root_pq cfg j))
     | BCR i o j => QCmp (cmp_left cfg i) (CP (root_pq cfg j) true) (match o with OLt => CLt | OLe => CLe | OGt => CGt | _ => CGe end)
     | BPQ i ne j => let q := QCmp (cmp_left cfg i) (CP (root_pq cfg j) true) CDeepEq in if ne then QNot q else q
+    | BX i body => rx_query cfg i body
     end.
 
   Lemma unescape_plain q body : forallb (plain_for q) body = true -> unescape_cps body = body.
@@ -499,7 +515,7 @@ Section QueryExec.
   Lemma exec_bq input p b rest ps toks cps bg : bq_ok b = true -> bq_okp b = true -> skipn p input = bq_text b ++ rest ->
     exists cps' b', execute (bq_tokens p b ++ toks) input cps bg (mk ps) = execute toks input cps' b' (mk (ps ++ [IQuery (bq_query b)])).
   Proof.
-    intros Hb Hp Hin. destruct b as [i|i|i o lit|i ne l|j|j|i o j|i ne j]; cbn [bq_ok bq_okp bq_text bq_tokens bq_query] in *.
+    intros Hb Hp Hin. destruct b as [i|i|i o lit|i ne l|j|j|i o j|i ne j|i body]; cbn [bq_ok bq_okp bq_text bq_tokens bq_query] in *.
     - set (L := List.length (render_steps i)).
       replace (([TAct 38] ++ inner_tokens p i ++ [TAct 39; TText p (p + 1 + L); TAct 27]) ++ toks)
         with ([TAct 38] ++ inner_tokens p i ++ [TAct 39] ++ ([TText p (p + 1 + L); TAct 27] ++ toks))
@@ -740,6 +756,36 @@ Section QueryExec.
                       exec_action 26 c0 b0 (mk (ps ++ [IQuery q0])) = AOk (mk (ps ++ [IQuery q0]))).
       { intros c0 b0 q0 [E|E]; subst q0; cbn [Actions.exec_action]; rewrite pop_mk; reflexivity. }
       rewrite E26 by (destruct ne; auto). cbn [abind]. eexists _, _. destruct ne; reflexivity.
+    - apply andb_true_iff in Hb. destruct Hb as [Hb Hre]. apply andb_true_iff in Hb. destruct Hb as [Hs Hvg]. apply negb_true_iff in Hvg.
+      set (Li := List.length (render_steps i)). set (B := List.length body).
+      unfold rx39_tokens, left43_tokens. cbv zeta. fold Li B.
+      assert (Hin' : skipn p input = 64 :: render_steps i ++ [61; 126; 47] ++ body ++ 47 :: rest) by (rewrite Hin; repeat (progress (cbn [app]) || rewrite <- app_assoc); reflexivity).
+      replace (((([TAct 38] ++ inner_tokens p i ++ [TAct 39; TText p (p + 1 + Li); TAct 37]) ++ [TText (p + 1 + Li + 3) (p + 1 + Li + 3 + B); TAct 34]) ++
+               [TText p (p + (1 + Li + 3 + B + 1)); TAct 26]) ++ toks)
+        with ([TAct 38] ++ inner_tokens p i ++ [TAct 39] ++
+              ([TText p (p + 1 + Li); TAct 37] ++ ([TText (p + 1 + Li + 3) (p + 1 + Li + 3 + B); TAct 34; TText p (p + (1 + Li + 3 + B + 1)); TAct 26] ++ toks)))
+        by (repeat (progress (cbn [app]) || rewrite <- app_assoc); reflexivity).
+      rewrite (exec_operand input p i _ ps _ cps bg Hs Hin').
+      assert (E37 : forall c0 b0, exec_action 37 c0 b0 (mk (ps ++ [IPQ (filter_pq cfg i); IBool false])) = AOk (mk (ps ++ [ICParam (cmp_left cfg i)]))).
+      { intros c0 b0. cbn [Actions.exec_action].
+        change (ps ++ [IPQ (filter_pq cfg i); IBool false]) with (ps ++ [IPQ (filter_pq cfg i)] ++ [IBool false]). rewrite app_assoc, pop_mk. cbn [abind].
+        rewrite pop_mk. cbn [abind]. unfold cmp_left, filter_pq. rewrite (operand_vg cfg), Hvg. reflexivity. }
+      match goal with |- context [execute ([TText ?b1 ?e1; TAct 37] ++ ?tl) input ?c0 ?b0 ?st] =>
+        change (execute ([TText b1 e1; TAct 37] ++ tl) input c0 b0 st)
+          with (abind (exec_action 37 (sub_list input b1 e1) b1 st) (fun st' => execute tl input (sub_list input b1 e1) b1 st')) end.
+      rewrite E37. cbn [abind]. cbn [app Actions.execute].
+      assert (Ec : sub_list input (p + 1 + Li + 3) (p + 1 + Li + 3 + B) = body).
+      { pose proof (sub_at input p (1 + Li + 3) ((64 :: render_steps i) ++ [61; 126; 47]) body (47 :: rest)) as H.
+        replace (p + (1 + Li + 3))%nat with (p + 1 + Li + 3)%nat in H by lia. apply H.
+        - rewrite Hin'. cbn [app]. rewrite <- !app_assoc. reflexivity.
+        - rewrite app_length. cbn [List.length]. unfold Li. lia. }
+      rewrite Ec.
+      assert (E34 : forall b0, exec_action 34 body b0 (mk (ps ++ [ICParam (cmp_left cfg i)])) = AOk (mk (ps ++ [IQuery (rx_query cfg i body)]))).
+      { intros b0. cbn [Actions.exec_action]. unfold pop_cparam. rewrite pop_mk. cbn [abind]. rewrite Hp. reflexivity. }
+      rewrite E34. cbn [abind].
+      assert (E26 : forall c0 b0, exec_action 26 c0 b0 (mk (ps ++ [IQuery (rx_query cfg i body)])) = AOk (mk (ps ++ [IQuery (rx_query cfg i body)]))).
+      { intros c0 b0. cbn [Actions.exec_action]. rewrite pop_mk. reflexivity. }
+      rewrite E26. cbn [abind]. eexists _, _. reflexivity.
   Qed.
 
   Definition conj_query (c : list bq) : query :=
